@@ -122,7 +122,7 @@ def _fs_suite(ctx: Ctx):
                         else:
                             ctx.fail("fs-missing-no-raise", "reading a missing path did not raise",
                                      {"steps": steps + [{"k": "read", "path": q, "range": rng_}]}, None)
-                    except FileNotFoundError:
+                    except (FileNotFoundError, NotADirectoryError):   # both: the path names no stored object
                         impl_outs.append({"err": "FileNotFoundError"})
                         if q in truth:
                             ctx.fail("fs-read-raises", "reading a written path raised FileNotFoundError",
